@@ -261,6 +261,14 @@ class IxWalk:
         elif isinstance(t, ast.Subscript):
             # A[i] = v : positions of i and rows of v must be aligned; values of i must address A
             base = self.ev(t.value, env)
+            # a buffer whose columns are written from a Khatri-Rao / meshgrid enumeration lists a key region in its own order:
+            # its rows are a listing of their own (not aligned with any stored entries)
+            if isinstance(t.value, ast.Name) and base.kind == "arr" and not base.rows and isinstance(t.slice, ast.Tuple) and t.slice.elts \
+                    and isinstance(t.slice.elts[0], ast.Slice) and any(
+                        isinstance(c, ast.Call) and (dotted(c.func) or "").split(".")[-1] in ("khatrirao", "meshgrid", "indices", "unravel_index")
+                        for c in ast.walk(st.value)):
+                env[t.value.id] = IV("arr", rows=self.fresh("enum", st.value), shp=base.shp)
+                return
             sel = self.selector(t.slice, env)
             if sel is not None and base.rows:
                 self.check_dom(base, sel, t, f"{ast.unparse(t)[:60]} = ...")
